@@ -105,7 +105,7 @@ def bounds(facts):
             conds = []
             walk(fn["body"], lambda n: conds.append(txt(n["c"], inl)) if n.get("k") == "If" else None)
             key = "frequent_items_sketch::get_estimate:formula"
-            if sorted(rets) == sorted(["(map.get(item)+offset)", "0"]) and conds == [C("(map.get(item)>0)")]:
+            if sorted(rets) == sorted(["(map.get(item)+offset)", "0"]) and conds in ([C("(map.get(item)>0)")], [C("(map.get(item)!=0)")]):
                 out.append(ob("fi.bounds", key, fn["pat"], "discharged", "weight > 0 ? weight + offset : 0", fn["qname"]))
             else:
                 out.append(ob("fi.bounds", key, fn["pat"], "violated", "estimate is %s under %s, expected weight + offset when tracked and 0 otherwise" % (rets, conds), fn["qname"]))
